@@ -528,6 +528,15 @@ func runParent(prop, tier string) int {
 		fmt.Fprintf(os.Stderr, "HARNESS ERROR: %.0f%% of generated operations had no solo oracle: the workload is degenerate\n", frac*100)
 		return 2
 	}
+	if total.FreeRun > 0 {
+		// the scheduler lost control in these runs (a task blocked or spun for real) and let the
+		// tasks run freely: their oracles still applied, their schedules were not the simulator's
+		fmt.Fprintf(os.Stderr, "note: %d of %d runs fell back to free running (a task blocked for real for 2 s)\n", total.FreeRun, total.Runs)
+	}
+	if total.Runs > 200 && total.FreeRun*10 > total.Runs && newViol == 0 {
+		fmt.Fprintf(os.Stderr, "HARNESS ERROR: %d of %d runs fell back to free running: the simulator does not control this build\n", total.FreeRun, total.Runs)
+		return 2
+	}
 	fmt.Printf("done: runs=%d distinct_nontrivial=%d violations=%d known=%d wall=%.1fs\n", total.Runs, ev.Coverage["distinct_nontrivial"], newViol, len(knownSeen), time.Since(start).Seconds())
 	if newViol > 0 {
 		return 1
